@@ -948,6 +948,17 @@ func (w *pedWorld) check() *core.Violation {
 			info.Probe("honest-no-output")
 		}
 	}
+	for _, p := range w.parties {
+		if p.res != nil {
+			h := sha256.New()
+			for _, c := range p.res.Key.Commits {
+				b, _ := c.MarshalBinary()
+				h.Write(b)
+			}
+			sb, _ := p.res.Key.Share.V.MarshalBinary()
+			info.Logf("party %d output: commits#%x share#%x qual=%v", p.id, h.Sum(nil)[:8], sha256.Sum256(sb), qualSet(p.res))
+		}
+	}
 	allHonest := true
 	for _, p := range w.parties {
 		if !p.honest() {
@@ -1230,5 +1241,5 @@ func (l *simLogger) Error(keyvals ...any) { l.w.logNode(l.id, "error", keyvals) 
 func (w *pedWorld) logNode(id int, lvl string, kv []any) {
 	w.mu.Lock()
 	defer w.mu.Unlock()
-	w.info.Logf("      [p%d %s] %v", id, lvl, kv)
+	w.info.Notef("      [p%d %s] %v", id, lvl, kv)
 }
